@@ -536,8 +536,31 @@ def env_tables(f, values, tmp, salts=None, key=None, iv=None):
     return env
 
 
+_STR_OPTS = ("min_len", "max_len", "regex", "choices", "strip", "case")
+
+
+def nonidempotent_container(f):
+    """a typed list / dict whose item field is one of the recorded non-idempotent ones (findings F22, F25).  The real
+    proxies validate an item once and recognise their own kind afterwards; the model validates decoded items again on
+    assignment, which is the same thing exactly when item validation is idempotent (theorem C05.validate_idem)."""
+    if f.get("k") not in ("list", "dict"):
+        return False
+
+    def bad(x):
+        if not isinstance(x, dict):
+            return False
+        if x.get("k") == "ipv4net" and any(x.get(o) not in (None, [], "") for o in _STR_OPTS):
+            return True
+        if x.get("k") == "filename" and x.get("startdir") and any(x.get(o) not in (None, [], "") for o in _STR_OPTS):
+            return True
+        return any(bad(x.get(s)) for s in ("item", "key", "value"))
+    return any(bad(f.get(s)) for s in ("item", "key", "value"))
+
+
 def modelled(f, values):
     """is (field, values) inside the model's declared domain?"""
+    if nonidempotent_container(f):
+        return False
     strs = []
     for v in values:
         strings_in(v, strs)
